@@ -217,6 +217,10 @@ class DiscretePortfolio(PortfolioSpace, Discrete):
         PortfolioSpace.__init__(self, contracts, as_weights, fractional)
         Discrete.__init__(self, n=len(allocations))
 
+    def null_action(self):
+        """Discrete actions are integers: the null action is action 0."""
+        return 0
+
     def _make_allocation(self, action, broker: 'tradingenv.broker.Broker' = None) -> Sequence[float]:
         """The action correspond to the  index of the target allocation from
         that sequence."""
